@@ -1,10 +1,8 @@
 """Seeded search, shrinking, replay files, evidence, known findings (cache world)."""
-import concurrent.futures as cf
 import copy
 import faulthandler
 import hashlib
 import json
-import multiprocessing
 import os
 import subprocess
 import sys
@@ -210,7 +208,9 @@ def match_known(prop, violation, known):
 # ---------------------------------------------------------------------------
 def _worker(args):
     profile, tier, seeds, deadline, want_samples = args
-    faulthandler.dump_traceback_later(600, exit=True)
+    from . import pool
+    pool.limit_memory()
+    faulthandler.dump_traceback_later(550, exit=True)
     out = {'runs': 0, 'counters': {}, 'digests': {}, 'violations': [], 'harness': [], 'steps': 0,
            'sim_span': 0.0, 'samples': [], 'seeds': []}
     for seed in seeds:
@@ -262,60 +262,49 @@ def sample_of(plan, res, seed):
 
 
 def search(prop, tier, base_seed, wall_s, workers=None):
+    from . import pool
     profile = PROFILE_OF[prop]
     workers = workers or min(16, os.cpu_count() or 4)
     t0 = time.time()
     deadline = t0 + wall_s
-    ctx = multiprocessing.get_context('fork')
     agg = {'runs': 0, 'counters': {}, 'digests': {}, 'violations': [], 'harness': [], 'steps': 0,
-           'sim_span': 0.0, 'samples': [], 'first_seed': None, 'last_seed': None}
+           'sim_span': 0.0, 'samples': [], 'first_seed': None, 'last_seed': None, 'lost_tasks': []}
     chunk = 40 if profile != 'diff' else 12
-    next_seed = base_seed * 1_000_000
-    with cf.ProcessPoolExecutor(max_workers=workers, mp_context=ctx) as ex:
-        pending = set()
+    base = base_seed * 1_000_000
 
-        def submit():
-            nonlocal next_seed
-            seeds = list(range(next_seed, next_seed + chunk))
-            next_seed += chunk
-            pending.add(ex.submit(_worker, (profile, tier, seeds, deadline, 1 if len(agg['samples']) < 3 else 0)))
+    def tasks():
+        lo = base
+        while True:
+            yield (profile, tier, list(range(lo, lo + chunk)), deadline, 1 if len(agg['samples']) < 3 else 0)
+            lo += chunk
 
-        for _ in range(workers * 2):
-            submit()
-        stop = False
-        while pending:
-            done, _ = cf.wait(pending, timeout=wall_s + 900, return_when=cf.FIRST_COMPLETED)
-            if not done:
-                agg['harness'].append('worker pool stalled')
-                for f in pending:
-                    f.cancel()
-                break
-            for f in done:
-                pending.discard(f)
-                try:
-                    r = f.result()
-                except BaseException as e:
-                    agg['harness'].append('worker died: %r' % (e,))
-                    continue
-                agg['runs'] += r['runs']
-                agg['steps'] += r['steps']
-                agg['sim_span'] += r['sim_span']
-                for k, v in r['counters'].items():
-                    agg['counters'][k] = agg['counters'].get(k, 0) + v
-                agg['digests'].update(r['digests'])
-                agg['violations'].extend(r['violations'])
-                agg['harness'].extend(r['harness'])
-                for s in r['samples']:
-                    if len(agg['samples']) < 3:
-                        agg['samples'].append(s)
-                if r['seeds']:
-                    lo, hi = min(r['seeds']), max(r['seeds'])
-                    agg['first_seed'] = lo if agg['first_seed'] is None else min(agg['first_seed'], lo)
-                    agg['last_seed'] = hi if agg['last_seed'] is None else max(agg['last_seed'], hi)
-                if len(agg['violations']) >= 6 or len(agg['harness']) >= 20:
-                    stop = True
-                if not stop and time.time() < deadline:
-                    submit()
+    def on_result(task, r, err):
+        if err is not None:
+            # a crashed child (e.g. the C unpickler on a damaged file) loses its chunk; it is not a verdict
+            agg['lost_tasks'].append('seeds %d..%d: %s' % (task[2][0], task[2][-1], err[:300]))
+            return
+        agg['runs'] += r['runs']
+        agg['steps'] += r['steps']
+        agg['sim_span'] += r['sim_span']
+        for k, v in r['counters'].items():
+            agg['counters'][k] = agg['counters'].get(k, 0) + v
+        agg['digests'].update(r['digests'])
+        agg['violations'].extend(r['violations'])
+        agg['harness'].extend(r['harness'])
+        for smp in r['samples']:
+            if len(agg['samples']) < 3:
+                agg['samples'].append(smp)
+        if r['seeds']:
+            lo, hi = min(r['seeds']), max(r['seeds'])
+            agg['first_seed'] = lo if agg['first_seed'] is None else min(agg['first_seed'], lo)
+            agg['last_seed'] = hi if agg['last_seed'] is None else max(agg['last_seed'], hi)
+
+    def keep_going():
+        return time.time() < deadline and len(agg['violations']) < 6 and len(agg['harness']) < 20
+
+    pool.fork_map(_worker, tasks(), workers, task_timeout=600, on_result=on_result, keep_going=keep_going)
+    if len(agg['lost_tasks']) > max(3, agg['runs'] // 2000):
+        agg['harness'].append('too many lost tasks: %s' % agg['lost_tasks'][:3])
     agg['wall'] = time.time() - t0
     return agg
 
@@ -424,6 +413,7 @@ def write_evidence(prop, tier, base_seed, agg, st_msg, violations_new, extra=Non
                       'editor / janitor / corrupter / power-loss drivers', 'process death and restart',
                       'os.getpid'],
             'harness_errors': agg['harness'][:5],
+            'lost_tasks': agg.get('lost_tasks', [])[:5],
         },
         'assumptions': [
             'the non-caching parser is the reference (a bug common to both paths is invisible)',
